@@ -233,10 +233,10 @@ CLAIMED = {
         technique='Lean 4 proof (real analysis of posynomial normalisation, log-space forms, column reordering) + model/implementation correspondence check',
         design_ref='DESIGN.md 4/C15'),
     'C06': dict(
-        text='PARTIAL (completeness of AGE certificates is PROVED on compact boxes - box_exact, box_bound_exact: certified over the box\'s conic '
-             'form iff nonnegative on the box, level-0 bound of posynomial + constant = its minimum - and on R^n at an attained minimum, by '
-             'first-order optimality with the explicit certificate; on R^n with a non-attained infimum and on other domains it is convex duality '
-             'and is not proved; monotonicity in ell / X is audited; the box\'s conic form of the theorem is tied to the real SigDomain through the driver). '
+        text='PARTIAL (completeness of AGE certificates is PROVED on all of R^n - ordAge_exact: the compiled relative-entropy certificate '
+             'exists iff the one-negative-term signomial is nonnegative, ordAge_bound_exact: level-0 bound of posynomial + constant = inf f, attained '
+             'or not; proof by a limit of explicit box certificates - and on compact boxes - box_exact, box_bound_exact, by '
+             'first-order optimality with the explicit certificate; on convex domains other than R^n and boxes it is not proved; monotonicity in ell / X is audited; the box\'s conic form of the theorem is tied to the real SigDomain through the driver). '
              'Theorems about the semantic AGE certificate (the predicate the compiled rows express, C01): soundness; invariance under '
              'translation, invertible linear change of variables, positive scaling, exponent shift and re-indexing; larger covers only help and '
              'dropping a cover index can lose a certificate; circuit completeness with the closed-form circuit number, sharp on the midpoint '
